@@ -10,6 +10,7 @@ import Compress.Drv.XFlateWriter
 import Compress.Drv.Prefix
 import Compress.Drv.Flate
 import Compress.Drv.Window
+import Compress.Drv.BitIO
 
 open Compress.Util Compress.Drv
 
@@ -27,6 +28,8 @@ def processLine (line : String) : String :=
       | "xw" => handleXw kv
       | "fl" => handleFl kv
       | "win" => handleWin kv
+      | "br" => handleBr kv
+      | "bw" => handleBw kv
       | "gp" => handleGp kv
       | "gl" => handleGl kv
       | "dec" => handleDec kv
